@@ -76,6 +76,14 @@ def listTree (occ : Option Occur) (o : Opd) (more : List PItem) : Ast CLeaf :=
 def opItems (ops : List (BinOp × Opd × Nat × Nat)) : List PItem :=
   ops.map fun x => ⟨some x.1, none, x.2.1, x.2.2.1, x.2.2.2⟩
 
+/-- juxtaposed items `[+|-]x` (no operator keyword), each after `n + 1` blanks -/
+def markItems (ms : List (Option Occur × Opd × Nat)) : List PItem :=
+  ms.map fun x => ⟨none, x.1, x.2.1, x.2.2, 0⟩
+
+/-- the clause entries such a list denotes -/
+def markEntries (occ : Option Occur) (o : Opd) (ms : List (Option Occur × Opd × Nat)) : List (Entry CLeaf) :=
+  (normOcc occ, o.leaf) :: ms.map fun x => (normOcc x.1, x.2.1.leaf)
+
 /-- a word as an operand -/
 def wordOpd (w : Str) : Opd := ⟨w, leafOf w, 1⟩
 
